@@ -215,8 +215,14 @@ def assemble_module(asm, name, with_contracts=True):
             ren = consistent_rename(ptoks, ctoks)
             if ren:
                 # the only difference is a consistent renaming of local identifiers: the overlay (executable and ghost tokens alike) is renamed with it
-                for t in atoks + ptoks:
+                for t in ptoks:
                     if t.t in ren: t.t = ren[t.t]
+                for n_, t in enumerate(atoks):
+                    if t.t in ren:
+                        # `x is Variant` of the ghost text is an operator, not the local that happens to be called `is`
+                        if t.t == 'is' and n_ + 1 < len(atoks) and atoks[n_ + 1].t[:1].isupper() and n_ > 0 and (re.match(r'[A-Za-z_)\]]', atoks[n_ - 1].t[-1:]) is not None):
+                            continue
+                        t.t = ren[t.t]
                 asm.log.append('%s: %s: identifiers renamed in /repo (%s); the overlay follows the renaming' % (name, k, ', '.join('%s -> %s' % kv for kv in sorted(ren.items()))))
             try:
                 classify_ghost(atoks, ptoks)
